@@ -571,8 +571,9 @@ def parts_attribute_and_element_types(ctx):
                      kind="sd")
     inner = ('<xsd:sequence><xsd:element name="id" type="xsd:string"/><xsd:element name="item" type="x:Item" '
              'maxOccurs="unbounded"/></xsd:sequence>')
+    # (a global element and the type it has share the name Item)
     item = ('<xsd:complexType name="Item"><xsd:sequence><xsd:element name="sku" type="xsd:string"/><xsd:element name="n" '
-            'type="xsd:int"/></xsd:sequence></xsd:complexType>')
+            'type="xsd:int"/></xsd:sequence></xsd:complexType><xsd:element name="Item" type="x:Item"/>')
     named = item + '<xsd:complexType name="OrderT">%s</xsd:complexType><xsd:element name="Order" type="x:OrderT"/>' % inner
     anon = item + '<xsd:element name="Order"><xsd:complexType>%s</xsd:complexType></xsd:element>' % inner
     got = {}
@@ -581,7 +582,15 @@ def parts_attribute_and_element_types(ctx):
         ctx.case(common.canon(meta), True)
         try:
             c = wsdlkit.client(wsdlkit.wsdl_doc(schema, "Order", None), nosend=True)
+            reply = ('<e:Envelope xmlns:e="%s" xmlns:xsi="%s"><e:Body><t:Order xmlns:t="%s"><t:id>o9</t:id><t:item '
+                     'xsi:type="t:Item"><t:sku>s9</t:sku><t:n>9</t:n></t:item></t:Order></e:Body></e:Envelope>'
+                     % (xmlread.ENV11, xmlread.XSI, wsdlkit.TNS)).encode()
             paths = {}
+            try:
+                r = wsdlkit.client(wsdlkit.wsdl_doc(schema, "Order", "Order")).service.f("o1", [], __inject={"reply": reply})
+                paths["reply"] = [str(r.id), [[str(i.sku), i.n] for i in r.item]]
+            except Exception as e:
+                paths["reply"] = type(e).__name__
             for nm in ("Order.item", "Order.item.sku", "Order"):
                 try:
                     paths[nm] = strip_classes(K.normal(c.factory.create("{%s}%s" % (wsdlkit.TNS, nm))))
@@ -596,7 +605,7 @@ def parts_attribute_and_element_types(ctx):
         except Exception as e:
             got[style] = "%s: %s" % (type(e).__name__, e)
     if got.get("named") != got.get("anonymous") or not isinstance(got.get("named"), list) or \
-            got["named"][0].get("Order.item") in ("TypeNotFound", None):
+            got["named"][0].get("Order.item") in ("TypeNotFound", None) or got["named"][0].get("reply") != ["o9", [["s9", 9]]]:
         ctx.fail("two renderings of one interface build different factory objects", {"stream": "element-type-renderings"},
                  repr(got.get("named"))[:900], repr(got.get("anonymous"))[:900], kind="factory")
 
@@ -654,6 +663,21 @@ def enumeration_aliases_and_autoblend(ctx):
                  reqs.get("AB"), kind="request")
 
 
+def several_blocks_of_one_namespace(ctx):
+    """One namespace written as two schema blocks (the first unqualified, the second qualified, the document calling
+    the namespace ns1): the global elements of the second block are global elements - a bare part is written
+    qualified and a derived value from another namespace keeps the name of its type."""
+    from harness.props import c01
+    ctx.case(("several-blocks-one-namespace",), True)
+    try:
+        bad = c01.clobbered_type_prefix()
+    except Exception as e:
+        bad = "%s: %s" % (type(e).__name__, e)
+    if bad is not None:
+        ctx.fail("request differs from what the abstract interface prescribes", {"stream": "several-blocks-one-namespace"},
+                 bad, ["urn:n1", "Der"], kind="request")
+
+
 def prefix_numbering(ctx):
     """The generated prefixes (ns0, ns1, ...: what str(client) shows and factory.create('nsN:Type') understands) do not
     depend on the order in which a WSDL declares its schema blocks and types - with namespace sorting on or off."""
@@ -704,6 +728,7 @@ def run(ctx):
     prefix_numbering(ctx)
     parts_attribute_and_element_types(ctx)
     enumeration_aliases_and_autoblend(ctx)
+    several_blocks_of_one_namespace(ctx)
     ctx.sample({"graph": [[1, [2, 3]], [2, [1]], [3, []]], "note": "D14 witness graph"})
 
 
